@@ -553,7 +553,7 @@ def run(R):
 
     # float affines (oracle only: rounding is not modelled)
     near_zero = 0
-    for _ in range(400 if quick else 3000):
+    for fi in range(400 if quick else 3000):
         vs, ts, c = closed_mesh()
         q, _r = np.linalg.qr(np.array([[rng.gauss(0, 1) for _ in range(3)] for _ in range(3)]))
         shear = np.eye(3)
@@ -567,6 +567,25 @@ def run(R):
         if kind == "singular-ish":
             A[2] = A[0] * rng.uniform(-2, 2) + A[1] * rng.uniform(-2, 2) + A[2] * 1e-13
         tr = np.array([rng.uniform(-1e3, 1e3) for _ in range(3)])
+        if fi % 5 == 4:
+            # almost -- but not -- the identity (a 1.000008 scaling, a 1e-9 shear, a 1e-8 mm shift): it must be
+            # applied like any other matrix; vertices of the order of 100 make the displacement measurable
+            kind = "near-identity"
+            vs = [[5 * x for x in v] for v in vs]
+            c = [5 * x for x in c]
+            sub = ["scale", "shift", "shear", "all"][(fi // 5) % 4]
+            A = np.eye(3)
+            tr = np.zeros(3)
+            if sub in ("scale", "all"):
+                for a in range(3):
+                    A[a, a] = 1 + rng.choice([-1, 1]) * 10 ** rng.uniform(-6, -5)
+            if sub in ("shear", "all"):
+                A[rng.randrange(3), (rng.randrange(2) + 1) % 3] = 0.0
+                a, b = rng.sample(range(3), 2)
+                A[a, b] = rng.choice([-1, 1]) * 10 ** rng.uniform(-9.5, -8.5)
+            if sub in ("shift", "all"):
+                tr = np.array([rng.choice([-1, 1]) * 10 ** rng.uniform(-9, -7) for _ in range(3)])
+            R.count("affine-float:near-identity:" + sub)
         mat = np.hstack([A, tr[:, None]])
         Mf = [[Fraction(float(x)) for x in row] for row in mat.tolist()]
         d = det3(Mf)
@@ -646,6 +665,10 @@ def run(R):
                 M = [[x + rng.choice([0, 0.5, 0.25]) for x in row] for row in M]
                 if det3([[Fraction(x) for x in r] for r in M]) == 0:
                     M[0][0] += 1
+        if i % 6 == 5 and vs:
+            kind = "near-identity"
+            vs = [[5 * x for x in v] for v in vs]
+            M = [[1 + 1e-5, 0.0, 0.0, 0.0], [0.0, 1 - 8e-6, 0.0, 0.0], [0.0, 0.0, 1 + 5e-6, rng.choice([0.0, 1e-7])]]
         cmd_cases.append((i, vs, ts, kind, M))
     for i, vs, ts, kind, M in cmd_cases:
         mesh_dir_opt = rng.choice([None, None, "mesh", "frags"])
@@ -1072,6 +1095,50 @@ def run(R):
                                 {"file": name, "content": snaps[1].get(name, b"<absent>").decode()[:80],
                                  "given": row[1:]})
                     break
+    # fragment names outside ASCII (the CSV is UTF-8 text).  The Coq model of the link files is ASCII only, so
+    # these are judged by the oracle alone: the link file, decoded as JSON, lists exactly the names given.
+    uni_names = ["caud\u00e9", "\u6d77\u99ac_L", "na\u00efve,frag", "\u00df", "\u00e9\"q", "\U0001f9e0_left", "plain",
+                 "\u0394v2", "pr\u00e9 post", "\u00ff\u00fe"]
+    import locale
+    utf8_env = locale.getpreferredencoding(False).lower().replace("-", "") == "utf8"
+    if not utf8_env:
+        R.notes.append("non-ASCII fragment names not exercised: the process's default text encoding is not UTF-8 "
+                       "(the script reads the CSV with the default encoding)")
+    for i in range((12 if quick else 60) if utf8_env else 0):
+        labels = rng.sample(range(1, 9000), rng.choice([1, 2, 3]))
+        rows = [[str(lab)] + rng.sample(uni_names, rng.randrange(1, 5)) for lab in labels]
+        nc = i % 2 == 0
+        mk = "mesh"
+        dest = new_dataset(f"lku_{i}", mk)
+        os.makedirs(os.path.join(dest, mk))
+        table = os.path.join(R.tmp, f"tu_{i}.csv")
+        with open(table, "w", newline="", encoding="utf-8") as f:
+            csv.writer(f).writerows(rows)
+        argv = ["link-mesh-fragments", table, dest] + (["--no-colon-suffix"] if nc else [])
+        if i < 2:
+            r = subprocess.run([PY, "-m", "neuroglancer_scripts.scripts.link_mesh_fragments"] + argv[1:],
+                               stdout=subprocess.PIPE, stderr=subprocess.PIPE, timeout=120,
+                               env=dict(os.environ, PYTHONUTF8="1"))
+            o = ["ok", []] if r.returncode == 0 else ["failed", r.stderr.decode(errors="replace")[-200:]]
+        else:
+            o = outcome_of(lambda: link_mesh_fragments.main(list(argv)))
+            o = ["ok", []] if o == ["ok", 0] else o
+        case = {"table": rows, "no_colon": nc, "kind": "non-ascii fragment names (UTF-8 CSV)", "subprocess": i < 2}
+        R.case(case, nontrivial=True)
+        R.count(f"links:non-ascii:{o[0]}")
+        got = {}
+        try:
+            for fn in os.listdir(os.path.join(dest, mk)):
+                with open(os.path.join(dest, mk, fn), "rb") as f:
+                    obj = json.loads(f.read().decode("utf-8"))
+                assert list(obj.keys()) == ["fragments"]
+                got[fn] = obj["fragments"]
+        except Exception as exc:  # noqa: BLE001
+            got = {"unparseable": repr(exc)}
+        want = {str(int(row[0])) + ("" if nc else ":0"): row[1:] for row in rows}
+        if o[0] != "ok" or got != want:
+            R.violation("fragment-link files do not list exactly the given (non-ASCII) fragment names", case,
+                        {"impl": o, "files": got, "want": want})
     replies = R.model.batch([("links_read", v) for _k, v in read_reqs])
     for (k, v), rep in zip(read_reqs, replies):
         want = json.loads(v.decode())["fragments"]
